@@ -63,6 +63,40 @@ package schema
 //@   at call extendedProviderSignaturePayload#1: assert arg0 == ad && arg1.ID == ad.ExtendedProvider.Providers[rangeindex].ID && arg1.Metadata == ad.ExtendedProvider.Providers[rangeindex].Metadata && arg1.Addresses == ad.ExtendedProvider.Providers[rangeindex].Addresses
 //@   ensures-local result1 == nil ==> str(result0) == idOfKey(envKeyOf(content(ad.Signature))) && count("call:Equal") >= 1
 //@   ensures-local result1 == nil && ad.ExtendedProvider != nil && len(ad.ExtendedProvider.Providers) > 0 ==> exists(j, 0, len(ad.ExtendedProvider.Providers), ad.ExtendedProvider.Providers[j].ID == ad.Provider)
+// ... and verification fails for the stated reasons only (what the library signs always verifies): the
+// envelope does not open, the payload cannot be recomputed or differs, the key has no peer ID, or - per
+// extended provider - the same for its envelope, its identity does not decode, it was signed by the wrong
+// key, or the main provider is missing from a non-empty list.
+//@   ghost envErr := false
+//@   ghost payErr := false
+//@   ghost eq1 := true
+//@   ghost idErr := false
+//@   at call ConsumeTypedEnvelope#1: after ghost envErr := result1 != nil
+//@   at call signaturePayload#1: after ghost payErr := result1 != nil
+//@   at call Equal#1: after ghost eq1 := result
+//@   at call IDFromPublicKey#1: after ghost idErr := result1 != nil
+//@   loop 1: iteration ghost epEnvErr := false
+//@   loop 1: iteration ghost epIdErr := false
+//@   loop 1: iteration ghost epDecErr := false
+//@   loop 1: iteration ghost epPayErr := false
+//@   loop 1: iteration ghost eq2 := true
+//@   loop 1: iteration ghost epSigner := 0
+//@   at call ConsumeTypedEnvelope#2: after ghost epEnvErr := result1 != nil
+//@   at call IDFromPublicKey#2: after ghost epIdErr := result1 != nil
+//@   at call IDFromPublicKey#2: after ghost epSigner := str(result0)
+//@   at call Decode#1: after ghost epDecErr := result1 != nil
+//@   at call extendedProviderSignaturePayload#1: after ghost epPayErr := result1 != nil
+//@   at call Equal#2: after ghost eq2 := result
+//@   ensures-local result1 != nil && count("loop*1") == 0 ==> envErr || payErr || !eq1 || idErr
+//@   loop 1: iteration ghost wrongSigner := false
+//@   ghost missingMain := false
+//@   at call errors.New#2: assert epSigner != mainSigner
+//@   at call errors.New#2: ghost wrongSigner := true
+//@   at call errors.New#3: assert count("call:Decode") >= 1 && !epDecErr
+//@   at call errors.New#3: ghost wrongSigner := true
+//@   at call Errorf#4: assert !seenTopLevelProv && len(ad.ExtendedProvider.Providers) > 0
+//@   at call Errorf#4: ghost missingMain := true
+//@   ensures-local result1 != nil && count("loop*1") >= 1 ==> epEnvErr || epIdErr || epDecErr || epPayErr || !eq2 || wrongSigner || missingMain
 //@   loop 1: invariant adOK(ad) && ad.ExtendedProvider != nil && rangeindex < len(ad.ExtendedProvider.Providers) && mainSigner == idOfKey(envKeyOf(content(ad.Signature))) && str(signerID) == mainSigner
 //@   loop 1: invariant seenTopLevelProv <==> exists(j, 0, rangeindex + 1, ad.ExtendedProvider.Providers[j].ID == ad.Provider)
 //@   loop 1: iteration ensures ite(ad.ExtendedProvider.Providers[rangeindex].ID == ad.Provider, idOfKey(envKeyOf(content(ad.ExtendedProvider.Providers[rangeindex].Signature))) == mainSigner, idOfKey(envKeyOf(content(ad.ExtendedProvider.Providers[rangeindex].Signature))) == peerOfString(str(ad.ExtendedProvider.Providers[rangeindex].ID)))
